@@ -538,9 +538,61 @@ func ruleFeeCeiling(c *report.Ctx) {
 			}
 		}
 	}
-	if check == nil {
+	amtCmp0 := p.Fn("github.com/massnetorg/mass-core/massutil", "Amount", "Cmp")
+	// the limit test written out in a handler (the check function spliced in): `max.Cmp(fee) < 0` whose over-limit side
+	// reaches no reply
+	isReply := func(f *ssa.Function) func(r *ssa.Return, pred *ssa.BasicBlock) bool {
+		return func(r *ssa.Return, pred *ssa.BasicBlock) bool {
+			return len(r.Results) > 0 && p.ValState(an.RetOperand(r, 0), r.Block(), pred) != an.IsNil
+		}
+	}
+	inlineTests := func(f *ssa.Function) []*ssa.Call {
+		var out []*ssa.Call
+		for _, b := range f.Blocks {
+			ifi, ok := b.Instrs[len(b.Instrs)-1].(*ssa.If)
+			if !ok || amtCmp0 == nil {
+				continue
+			}
+			for i := range b.Succs {
+				a := p.MkAtom(ifi.Cond, i == 0, ifi)
+				call, isCall := a.X.(*ssa.Call)
+				if a.Op != token.LSS || !isCall || call.Call.StaticCallee() != amtCmp0 {
+					continue
+				}
+				if k, isK := constInt(a.Y); !isK || k != 0 {
+					continue
+				}
+				s := &an.Search{P: p, Fn: f, GoalReturn: isReply(f)}
+				if s.Run(b.Succs[i], 0, b) == nil {
+					out = append(out, call)
+				}
+			}
+		}
+		return out
+	}
+	if check == nil && amtCmp0 == nil {
 		c.Lost("api.checkTxFeeLimit")
 		return
+	}
+	fromWallet := func(v ssa.Value) bool {
+		v = soleNonNil(v)
+		for i := 0; i < 3; i++ {
+			switch x := v.(type) {
+			case *ssa.ChangeType:
+				v = soleNonNil(x.X)
+				continue
+			case *ssa.Convert:
+				v = soleNonNil(x.X)
+				continue
+			}
+			break
+		}
+		if ex, isEx := v.(*ssa.Extract); isEx {
+			if call, isCall := ex.Tuple.(*ssa.Call); isCall && call.Call.StaticCallee() != nil && an.FuncPkg(call.Call.StaticCallee()) != nil && an.FuncPkg(call.Call.StaticCallee()).Path() == pkgWallet {
+				return true
+			}
+		}
+		return false
 	}
 	for _, n := range []string{"CreateRawTransaction", "AutoCreateTransaction", "CreateStakingTransaction", "CreateBindingTransaction"} {
 		f := fn(c, pkgAPI, "APIServer", n)
@@ -548,20 +600,37 @@ func ruleFeeCeiling(c *report.Ctx) {
 			continue
 		}
 		key := sk(f) + "=>checkTxFeeLimit"
-		s := &an.Search{P: p, Fn: f, Cut: cutCalls(p, an.Set(check)), GoalReturn: func(r *ssa.Return, pred *ssa.BasicBlock) bool {
-			// a reply = a return whose response operand is not the nil constant
-			return len(r.Results) > 0 && p.ValState(an.RetOperand(r, 0), r.Block(), pred) != an.IsNil
-		}}
+		tests := inlineTests(f)
+		isTest := func(in ssa.Instruction) bool {
+			for _, t := range tests {
+				if in == ssa.Instruction(t) {
+					return true
+				}
+			}
+			return false
+		}
+		cut := func(in ssa.Instruction) bool {
+			if isTest(in) {
+				return true
+			}
+			return check != nil && cutCalls(p, an.Set(check))(in)
+		}
+		s := &an.Search{P: p, Fn: f, Cut: cut, GoalReturn: isReply(f)}
 		if w := s.Run(f.Blocks[0], 0, nil); w != nil {
 			c.Fail(key, "a non-nil response can be returned without the fee-limit check", p.Pos(f.Pos()), w...)
 		} else {
 			// and the checked value is the fee reported by the wallet's create call
 			ok := false
-			for _, cs := range calls(f, check) {
-				if ex, isEx := an.CallOf(cs).Args[1].(*ssa.Extract); isEx {
-					if call, isCall := ex.Tuple.(*ssa.Call); isCall && call.Call.StaticCallee() != nil && an.FuncPkg(call.Call.StaticCallee()).Path() == pkgWallet {
+			if check != nil {
+				for _, cs := range calls(f, check) {
+					if a := an.CallOf(cs).Args; len(a) > 0 && fromWallet(a[len(a)-1]) {
 						ok = true
 					}
+				}
+			}
+			for _, t := range tests {
+				if fromWallet(t.Call.Args[1]) {
+					ok = true
 				}
 			}
 			if ok {
@@ -570,6 +639,9 @@ func ruleFeeCeiling(c *report.Ctx) {
 				c.Fail(key, "checkTxFeeLimit is not applied to the fee returned by the wallet's create call", p.Pos(f.Pos()))
 			}
 		}
+	}
+	if check == nil {
+		return // the test lives in the handlers (judged above: its over-limit side reaches no reply)
 	}
 	// the check itself: the over-limit branch reaches only a non-nil error
 	amtCmp := p.Fn("github.com/massnetorg/mass-core/massutil", "Amount", "Cmp")
